@@ -220,7 +220,11 @@ def run(ctx) -> Report:
         rep.violation("C04-shape", vnew, "VariableDerivative.__new__ free-index variable", "a differentiation variable with free indices is accepted")
     except LiftRaise:
         rep.ok("C04-shape", vnew, "differentiation variable with free indices is rejected")
+    from .c03_compose import compose_diff
+
+    compose_diff(ctx, rep)
     check_memo_keys(ctx, rep, "C04-key", [MOD])
+    rep.require_min("C04-compose", 8)
     rep.require_min("C04-table", 130)
     rep.require_min("C04-calc", 150)
     rep.require_min("C04-id", 50)
@@ -229,7 +233,9 @@ def run(ctx) -> Report:
         "compared with the formal derivative (shape f.shape+v.shape by construction of the comparison); _make_identity "
         "compared with the Kronecker identity for ranks 0..3; the Variable / Coefficient / ReferenceValue / Grad terminal "
         "rules lifted with the ruleset object produced by lifting __init__, including a Variable node whose wrapped "
-        "expression was rewritten (same label)."
+        "expression was rewritten (same label). C04-compose: apply_derivatives interpreted from source on whole diff(F, v) "
+        "expressions (scalar / vector / matrix variables, nested variables, variables under math functions, spatial "
+        "derivatives and conditionals); the result must mean dF/dV for the independent quantity V bound to the label."
     )
     rep.assumptions = ["reference semantics as in sa/uflmodel.py", "label identity models Label equality; Variable equality compares label and expression"]
     return rep
